@@ -473,12 +473,13 @@ mod exec {
                 }
             }
             // sh would read these as syntax, not as a name, when they come first
+            // (the second group only in some shells, e.g. bash run as sh)
             fn reserved_word(s: &str) -> bool {
                 matches!(
                     s,
                     "case" | "do" | "done" | "elif" | "else" | "esac" | "fi" | "for" | "if" | "in"
                         | "then" | "until" | "while"
-                )
+                ) || matches!(s, "function" | "select" | "namespace" | "time" | "coproc")
             }
             // the empty string must be quoted as well, or it would vanish
             if s.is_empty() || !s.chars().all(nice_char) || reserved_word(s) {
